@@ -586,3 +586,484 @@ Theorem C13_single_contract_verdict_equal_missing_fee_check_subroutine_refuted :
 Proof. exact single_group_eq_contract_fee_subroutine_refuted. Qed.
 
 Print Assumptions C13_single_contract_verdict_equal_missing_fee_check_subroutine_refuted.
+
+(* ------------------------------------------------------------------------------------------------------------
+   Extension (group configuration reading completed): Lemmas/GroupCfgOk.v (flat boolean group_cfg_ok, per-exception
+   iff theorems, fill_group_relative_indexes cannot raise), Lemmas/FromYamlLemmas.v (the from_yaml readers for every
+   YAML map), Lemmas/AbsIndexLemmas.v (absolute_index as any integer) *)
+From Tealer Require Import GroupCfgOk FromYamlLemmas AbsIndexLemmas.
+
+(* the regenerated reading of one group (init_group_gen = the body of the groups loop of init_tealer_from_config)
+   returns iff the flat boolean group_cfg_ok holds, for every contracts table and every entry list *)
+Theorem C13_group_reading_returns_iff_cfg_ok :
+  forall (cs : list (string * tcontract)) (grp : GroupConfigGroup),
+  (exists r : list tobj * gobj, init_group_gen cs grp = Ok r) <-> group_cfg_ok cs (cg_transactions grp) = true.
+Proof. exact init_group_returns_iff. Qed.
+
+(* group_cfg_ok read as propositions: every entry names a listed type, listed contracts / functions of the right
+   kind; ids pairwise distinct; every relative index names an id of the group; absolute indexes pairwise distinct *)
+Theorem C13_group_cfg_ok_meaning :
+  forall (cs : list (string * tcontract)) (es : list GroupConfigTransaction),
+  group_cfg_ok cs es = true <->
+  (forall e : GroupConfigTransaction,
+   In e es ->
+   (exists ty : string, In (ct_txn_type e, ty) USER_CONFIG_TRANSACTION_TYPES) /\
+   call_okb cs false (ct_application e) = true /\ call_okb cs true (ct_logic_sig e) = true) /\
+  NoDup (map ct_txn_id es) /\
+  (forall (e : GroupConfigTransaction) (r : list (string * Z)) (oid : string),
+   In e es -> ct_relative_indexes e = Some r -> In oid (map fst r) -> In oid (map ct_txn_id es)) /\
+  NoDup (abs_list es).
+Proof. exact group_cfg_ok_spec. Qed.
+
+(* it raises x iff the flat first-error scan group_cfg_err gives x *)
+Theorem C13_group_reading_exception_is_first_error :
+  forall (cs : list (string * tcontract)) (grp : GroupConfigGroup) (x : exn),
+  init_group_gen cs grp = Raise x <-> group_cfg_err cs (cg_transactions grp) = Some x.
+Proof. exact init_group_raises_iff. Qed.
+
+(* once the two loops have succeeded, fill_group_relative_indexes(group_obj) returns *)
+Theorem C13_fill_group_relative_indexes_cannot_raise :
+  forall (cs : list (string * tcontract)) (grp : GroupConfigGroup) (os : list tobj) (r : list tobj * gobj),
+  let es := cg_transactions grp in
+  phase1 cs es [] = Ok os ->
+  phase2 (id_table es) 0 es os (group0 grp) = Ok r ->
+  exists g : gobj, call_fill_group_relative_indexes (fst r) (snd r) = Ok g.
+Proof. exact fill_cannot_raise. Qed.
+
+(* which exception: decided by the FIRST offending entry (first loop before second loop) *)
+Theorem C13_group_reading_raises_first_offender :
+  forall (cs : list (string * tcontract)) (grp : GroupConfigGroup) (x : exn),
+  let es := cg_transactions grp in
+  init_group_gen cs grp = Raise x <->
+  (exists (pre : list GroupConfigTransaction) (e : GroupConfigTransaction) (post : list GroupConfigTransaction),
+     es = (pre ++ e :: post)%list /\
+     phase1_okb cs pre = true /\
+     (entry_err cs e = Some x \/ entry_err cs e = None /\ x = E_repeated /\ In (ct_txn_id e) (map ct_txn_id pre))) \/
+  phase1_okb cs es = true /\
+  (exists (pre : list GroupConfigTransaction) (e : GroupConfigTransaction) (post : list GroupConfigTransaction),
+     es = (pre ++ e :: post)%list /\
+     phase2_okb (map ct_txn_id es) pre = true /\
+     (rel_okb (map ct_txn_id es) e = false /\ x = E_foreign \/
+      rel_okb (map ct_txn_id es) e = true /\
+      x = E_same_abs /\ (exists a : Z, ct_absolute_index e = Some a /\ In a (abs_list pre)))).
+Proof. exact init_raises_first_offender. Qed.
+
+(* no other exception is possible *)
+Theorem C13_group_reading_raises_nothing_else :
+  forall (cs : list (string * tcontract)) (grp : GroupConfigGroup) (x : exn),
+  init_group_gen cs grp = Raise x ->
+  In x [EKeyError; E_contract; E_function; E_app_is_lsig; E_lsig_is_app; E_repeated; E_foreign; E_same_abs].
+Proof. exact init_raises_nothing_else. Qed.
+
+(* the eight cases, each an iff *)
+Theorem C13_group_reading_raises_unknown_type :
+  forall (cs : list (string * tcontract)) (grp : GroupConfigGroup),
+  init_group_gen cs grp = Raise EKeyError <->
+  (exists (pre : list GroupConfigTransaction) (e : GroupConfigTransaction) (post : list GroupConfigTransaction),
+     cg_transactions grp = (pre ++ e :: post)%list /\
+     phase1_okb cs pre = true /\ sdict_mem (ct_txn_type e) USER_CONFIG_TRANSACTION_TYPES = false).
+Proof. exact init_raises_unknown_type. Qed.
+
+Theorem C13_group_reading_raises_unknown_contract :
+  forall (cs : list (string * tcontract)) (grp : GroupConfigGroup),
+  init_group_gen cs grp = Raise E_contract <->
+  (exists (pre : list GroupConfigTransaction) (e : GroupConfigTransaction) (post : list GroupConfigTransaction),
+     cg_transactions grp = (pre ++ e :: post)%list /\
+     phase1_okb cs pre = true /\
+     type_okb e = true /\
+     ((exists fc : GroupConfigFunctionCall, ct_application e = Some fc /\ find_contract cs fc = None) \/
+      call_fault cs false (ct_application e) = None /\
+      (exists fc : GroupConfigFunctionCall, ct_logic_sig e = Some fc /\ find_contract cs fc = None))).
+Proof. exact init_raises_unknown_contract. Qed.
+
+Theorem C13_group_reading_raises_unknown_function :
+  forall (cs : list (string * tcontract)) (grp : GroupConfigGroup),
+  init_group_gen cs grp = Raise E_function <->
+  (exists (pre : list GroupConfigTransaction) (e : GroupConfigTransaction) (post : list GroupConfigTransaction),
+     cg_transactions grp = (pre ++ e :: post)%list /\
+     phase1_okb cs pre = true /\
+     type_okb e = true /\
+     ((exists (fc : GroupConfigFunctionCall) (c : tcontract),
+         ct_application e = Some fc /\
+         find_contract cs fc = Some c /\ sdict_mem (fc_function fc) (c_functions c) = false) \/
+      call_fault cs false (ct_application e) = None /\
+      (exists (fc : GroupConfigFunctionCall) (c : tcontract),
+         ct_logic_sig e = Some fc /\
+         find_contract cs fc = Some c /\ sdict_mem (fc_function fc) (c_functions c) = false))).
+Proof. exact init_raises_unknown_function. Qed.
+
+Theorem C13_group_reading_raises_application_is_logic_sig :
+  forall (cs : list (string * tcontract)) (grp : GroupConfigGroup),
+  init_group_gen cs grp = Raise E_app_is_lsig <->
+  (exists (pre : list GroupConfigTransaction) (e : GroupConfigTransaction) (post : list GroupConfigTransaction),
+     cg_transactions grp = (pre ++ e :: post)%list /\
+     phase1_okb cs pre = true /\
+     type_okb e = true /\
+     (exists (fc : GroupConfigFunctionCall) (c : tcontract),
+        ct_application e = Some fc /\
+        find_contract cs fc = Some c /\
+        sdict_mem (fc_function fc) (c_functions c) = true /\ (c_contract_type c =? "LogicSig") = true)).
+Proof. exact init_raises_app_is_lsig. Qed.
+
+Theorem C13_group_reading_raises_logic_sig_is_application :
+  forall (cs : list (string * tcontract)) (grp : GroupConfigGroup),
+  init_group_gen cs grp = Raise E_lsig_is_app <->
+  (exists (pre : list GroupConfigTransaction) (e : GroupConfigTransaction) (post : list GroupConfigTransaction),
+     cg_transactions grp = (pre ++ e :: post)%list /\
+     phase1_okb cs pre = true /\
+     type_okb e = true /\
+     call_fault cs false (ct_application e) = None /\
+     (exists (fc : GroupConfigFunctionCall) (c : tcontract),
+        ct_logic_sig e = Some fc /\
+        find_contract cs fc = Some c /\
+        sdict_mem (fc_function fc) (c_functions c) = true /\ (c_contract_type c =? "LogicSig") = false)).
+Proof. exact init_raises_lsig_is_app. Qed.
+
+Theorem C13_group_reading_raises_repeated_id :
+  forall (cs : list (string * tcontract)) (grp : GroupConfigGroup),
+  init_group_gen cs grp = Raise E_repeated <->
+  (exists (pre : list GroupConfigTransaction) (e : GroupConfigTransaction) (post : list GroupConfigTransaction),
+     cg_transactions grp = (pre ++ e :: post)%list /\
+     phase1_okb cs pre = true /\ entry_okb cs e = true /\ In (ct_txn_id e) (map ct_txn_id pre)).
+Proof. exact init_raises_repeated. Qed.
+
+Theorem C13_group_reading_raises_foreign_relative_id :
+  forall (cs : list (string * tcontract)) (grp : GroupConfigGroup),
+  let es := cg_transactions grp in
+  init_group_gen cs grp = Raise E_foreign <->
+  phase1_okb cs es = true /\
+  (exists (pre : list GroupConfigTransaction) (e : GroupConfigTransaction) (post : list GroupConfigTransaction),
+     es = (pre ++ e :: post)%list /\
+     phase2_okb (map ct_txn_id es) pre = true /\
+     (exists (r : list (string * Z)) (oid : string),
+        ct_relative_indexes e = Some r /\ In oid (map fst r) /\ ~ In oid (map ct_txn_id es))).
+Proof. exact init_raises_foreign. Qed.
+
+Theorem C13_group_reading_raises_same_absolute_index :
+  forall (cs : list (string * tcontract)) (grp : GroupConfigGroup),
+  let es := cg_transactions grp in
+  init_group_gen cs grp = Raise E_same_abs <->
+  phase1_okb cs es = true /\
+  (exists
+     (pre : list GroupConfigTransaction) (e : GroupConfigTransaction) (post : list GroupConfigTransaction) 
+   (a : Z),
+     es = (pre ++ e :: post)%list /\
+     phase2_okb (map ct_txn_id es) pre = true /\
+     rel_okb (map ct_txn_id es) e = true /\ ct_absolute_index e = Some a /\ In a (abs_list pre)).
+Proof. exact init_raises_same_abs. Qed.
+
+(* the three regenerated from_yaml readers, for EVERY parsed YAML map: raise exactly the exception of the flat
+   decidable fault cascade, otherwise return the record whose fields are the listed entries (absent / null = None) *)
+Theorem C13_from_yaml_function_call_total :
+  forall m : list (string * yv),
+  GroupConfigFunctionCall_from_yaml_gen m =
+  match call_fault_y m with
+  | Some x => Raise x
+  | None => Ok (call_record m)
+  end.
+Proof. exact call_from_yaml_total. Qed.
+
+Theorem C13_from_yaml_transaction_total :
+  forall m : list (string * yv),
+  GroupConfigTransaction_from_yaml_gen m =
+  match txn_fault m with
+  | Some x => Raise x
+  | None => Ok (txn_record m)
+  end.
+Proof. exact txn_from_yaml_total. Qed.
+
+Theorem C13_from_yaml_group_total :
+  forall m : list (string * yv),
+  GroupConfigGroup_from_yaml_gen m = match grp_fault m with
+                                     | Some x => Raise x
+                                     | None => Ok (grp_record m)
+                                     end.
+Proof. exact grp_from_yaml_total. Qed.
+
+(* possible exceptions of the entry reader (never KeyError); exact conditions of the first two *)
+Theorem C13_from_yaml_transaction_exceptions :
+  forall (m : list (string * yv)) (x : exn),
+  txn_fault m = Some x -> In x [T_txn_missing; T_txn_unknown; T_call_missing; T_rel_missing; ETypeError].
+Proof. exact txn_fault_range. Qed.
+
+Theorem C13_from_yaml_transaction_missing_field_iff :
+  forall m : list (string * yv),
+  GroupConfigTransaction_from_yaml_gen m = Raise T_txn_missing <->
+  sdict_mem "txn_id" m = false \/ sdict_mem "txn_type" m = false.
+Proof. exact txn_raises_missing_iff. Qed.
+
+Theorem C13_from_yaml_transaction_unknown_type_iff :
+  forall m : list (string * yv),
+  GroupConfigTransaction_from_yaml_gen m = Raise T_txn_unknown <->
+  sdict_mem "txn_id" m = true /\
+  sdict_mem "txn_type" m = true /\
+  (exists ty : string, yget "txn_type" m = YStr ty /\ sdict_mem ty USER_CONFIG_TRANSACTION_TYPES = false).
+Proof. exact txn_raises_unknown_type_iff. Qed.
+
+(* the fields of a returned entry in terms of the map *)
+Theorem C13_from_yaml_transaction_fields :
+  forall (m : list (string * yv)) (r : GroupConfigTransaction),
+  GroupConfigTransaction_from_yaml_gen m = Ok r ->
+  yget "txn_id" m = YStr (ct_txn_id r) /\
+  yget "txn_type" m = YStr (ct_txn_type r) /\
+  ymap_get_opt "has_logic_sig" m = option_map YBool (ct_has_logic_sig r) /\
+  ymap_get_opt "absolute_index" m = option_map YInt (ct_absolute_index r) /\
+  match ct_application r with
+  | Some c =>
+      exists m' : list (string * yv),
+        ymap_get_opt "application" m = Some (YMap m') /\
+        yget "contract" m' = YStr (fc_contract c) /\ yget "function" m' = YStr (fc_function c)
+  | None => ymap_get_opt "application" m = None
+  end /\
+  match ct_logic_sig r with
+  | Some c =>
+      exists m' : list (string * yv),
+        ymap_get_opt "logic_sig" m = Some (YMap m') /\
+        yget "contract" m' = YStr (fc_contract c) /\ yget "function" m' = YStr (fc_function c)
+  | None => ymap_get_opt "logic_sig" m = None
+  end /\
+  match ct_relative_indexes r with
+  | Some d =>
+      exists l : list yv,
+        ymap_get_opt "relative_indexes" m = Some (YList l) /\
+        (forall v : yv,
+         In v l ->
+         exists m' : list (string * yv),
+           v = YMap m' /\
+           yget "other_txn_id" m' = YStr (fst (rel_entry_pair v)) /\
+           yget "offset" m' = YInt (snd (rel_entry_pair v))) /\ d = rel_record_from l []
+  | None => ymap_get_opt "relative_indexes" m = None
+  end.
+Proof. exact txn_returns_fields. Qed.
+
+(* generalisation of C13_from_yaml_relative_indexes to entries listing all fields *)
+Theorem C13_from_yaml_entry_with_all_fields :
+  forall (tid ty : string) (app : option GroupConfigFunctionCall) (hl : option bool)
+    (ls : option GroupConfigFunctionCall) (ab : option Z) (rel : option (list (Z * string))),
+  GroupConfigTransaction_from_yaml_gen (yaml_of_entry tid ty app hl ls ab rel) =
+  (if sdict_mem ty USER_CONFIG_TRANSACTION_TYPES
+   then
+    Ok
+      {|
+        ct_txn_id := tid;
+        ct_txn_type := ty;
+        ct_application := app;
+        ct_has_logic_sig := hl;
+        ct_logic_sig := ls;
+        ct_absolute_index := ab;
+        ct_relative_indexes := option_map yaml_dict rel
+      |}
+   else Raise T_txn_unknown).
+Proof. exact from_yaml_of_entry. Qed.
+
+(* reader followed by the construction of the objects: returns iff both decidable conditions hold; the KeyError of
+   USER_CONFIG_TRANSACTION_TYPES[txn.txn_type] is unreachable from a configuration file *)
+Theorem C13_configuration_group_returns_iff :
+  forall (cs : list (string * tcontract)) (m : list (string * yv)),
+  (exists r : list tobj * gobj, read_group cs m = Ok r) <->
+  grp_fault m = None /\ group_cfg_ok cs (cg_transactions (grp_record m)) = true.
+Proof. exact read_group_returns_iff. Qed.
+
+Theorem C13_configuration_group_never_keyerror :
+  forall (cs : list (string * tcontract)) (m : list (string * yv)), read_group cs m <> Raise EKeyError.
+Proof. exact read_group_never_keyerror. Qed.
+
+(* absolute_index is ANY integer i: each of the three consumers of txn.absoulte_index in the verdict returns / raises on i
+   exactly as on abs_slot i (negative i wraps around the 16-entry list, i >= 16 and i < -16 raise), for every i *)
+Theorem C13_absolute_index_validated_in_block_reads_slot :
+  forall (checks : bctx -> bool) (r : fn_result) (b : nat) (i : Z),
+  validated_in_block_gen r checks b (Some i) = validated_in_block_gen r checks b (Some (Z.of_N (abs_slot i))).
+Proof. exact validated_in_block_gen_slot. Qed.
+
+Theorem C13_absolute_index_own_contract_reads_slot :
+  forall (funcs : list (func * fn_result)) (checks : bctx -> bool) (k : nat) (i : Z),
+  contract_checks_its_field_gen funcs checks k (Some i) =
+  contract_checks_its_field_gen funcs checks k (Some (Z.of_N (abs_slot i))).
+Proof. exact contract_checks_its_field_gen_slot. Qed.
+
+Theorem C13_absolute_index_other_contracts_read_slot :
+  forall (funcs : list (func * fn_result)) (checks : bctx -> bool) (k : nat) (i : Z),
+  contract_checks_txn_at_absolute_index_gen funcs checks k i =
+  contract_checks_txn_at_absolute_index_gen funcs checks k (Z.of_N (abs_slot i)).
+Proof. exact contract_checks_txn_at_absolute_index_gen_slot. Qed.
+
+(* absolute_index: -1 is read as 15; 16 (and -17) raise unless the block is validated by its txn context *)
+Theorem C13_absolute_index_minus_one_is_fifteen :
+  forall (checks : bctx -> bool) (r : fn_result) (b : nat),
+  validated_in_block_gen r checks b (Some (-1)%Z) = validated_in_block_gen r checks b (Some 15%Z).
+Proof. exact validated_minus_one_is_fifteen. Qed.
+
+Theorem C13_absolute_index_out_of_range_raises :
+  forall (checks : bctx -> bool) (r : fn_result) (b : nat) (i : Z),
+  (Z.of_N MAX_GROUP_SIZE <= i)%Z \/ (i < - Z.of_N MAX_GROUP_SIZE)%Z ->
+  validated_in_block_gen r checks b (Some i) = (if checks (ctx_of r b KSelf) then Some true else None).
+Proof. exact validated_out_of_range. Qed.
+
+(* init keeps the configured integers as they are; the earlier view through Z.to_N was not faithful; concrete verdicts *)
+Theorem C13_absolute_index_kept_by_init :
+  forall (cs : list (string * tcontract)) (grp : GroupConfigGroup) (heap : list tobj) (g : gobj),
+  init_group_gen cs grp = Ok (heap, g) ->
+  map o_absoulte_index heap = map ct_absolute_index (cg_transactions grp).
+Proof. exact init_keeps_absolute_indexes. Qed.
+
+Theorem C13_absolute_index_view_through_to_N_refuted :
+  validated_in_block_gen r_pay15 checks_pay 0 (Some (-1)%Z) = Some true /\
+  validated_in_block_gen r_pay15 checks_pay 0 (Some (Z.of_N (Z.to_N (-1)))) = Some false /\
+  validated_in_block_gen r_pay15 checks_pay 0 (Some (Z.of_N (abs_slot (-1)))) = Some true.
+Proof. exact abs_to_N_view_refuted. Qed.
+
+Theorem C13_absolute_index_negative_verdict :
+  exists (heap : list tobj) (g : gobj),
+    init_group_gen ai_contracts {| cg_operation := "op"; cg_transactions := [ai_entry "t" (-1)] |} =
+    Ok (heap, g) /\
+    map o_absoulte_index heap = [Some (-1)%Z] /\
+    gr_absolute_indexes g = [((-1)%Z, 0)] /\
+    view_group heap g =
+    [{|
+       g_id := "t";
+       g_type := "Pay";
+       g_has_logic_sig := true;
+       g_logic_sig := Some 0;
+       g_application := None;
+       g_abs := Some 15%N;
+       g_rel := []
+     |}] /\
+    group_verdict_gen ai_funcs checks_pay "STATELESS" None (view_group heap g) = Some [] /\
+    group_verdict ai_funcs checks_pay "STATELESS" None
+      [{|
+         g_id := "t";
+         g_type := "Pay";
+         g_has_logic_sig := true;
+         g_logic_sig := Some 0;
+         g_application := None;
+         g_abs := Some 15%N;
+         g_rel := []
+       |}] = [] /\
+    group_verdict ai_funcs checks_pay "STATELESS" None
+      [{|
+         g_id := "t";
+         g_type := "Pay";
+         g_has_logic_sig := true;
+         g_logic_sig := Some 0;
+         g_application := None;
+         g_abs := Some 0%N;
+         g_rel := []
+       |}] = ["t"].
+Proof. exact init_then_verdict_negative_index. Qed.
+
+Theorem C13_absolute_index_out_of_range_verdict :
+  (exists (heap : list tobj) (g : gobj),
+     init_group_gen ai_contracts {| cg_operation := "op"; cg_transactions := [ai_entry "t" 16] |} = Ok (heap, g) /\
+     map o_absoulte_index heap = [Some 16%Z] /\
+     group_verdict_gen ai_funcs checks_pay "STATELESS" None (view_group heap g) = None) /\
+  (exists (heap : list tobj) (g : gobj),
+     init_group_gen ai_contracts {| cg_operation := "op"; cg_transactions := [ai_entry "t" (-17)] |} =
+     Ok (heap, g) /\
+     map o_absoulte_index heap = [Some (-17)%Z] /\
+     group_verdict_gen ai_funcs checks_pay "STATELESS" None (view_group heap g) = None) /\
+  contract_checks_its_field_gen ai_funcs checks_pay 0 (Some 16%Z) = None /\
+  contract_checks_its_field_gen ai_funcs checks_pay 0 (Some (-17)%Z) = None /\
+  contract_checks_its_field_gen ai_funcs (fun _ : bctx => true) 0 (Some 16%Z) = Some true.
+Proof. exact init_then_verdict_out_of_range. Qed.
+
+Theorem C13_absolute_index_alias_witness :
+  group_cfg_ok ai_contracts [ai_entry "a" (-1); ai_entry "b" 15] = true /\
+  (exists (heap : list tobj) (g : gobj),
+     init_group_gen ai_contracts
+       {| cg_operation := "op"; cg_transactions := [ai_entry "a" (-1); ai_entry "b" 15] |} = 
+     Ok (heap, g) /\
+     gr_absolute_indexes g = [((-1)%Z, 0); (15%Z, 1)] /\ map g_abs (view_group heap g) = [Some 15%N; Some 15%N]) /\
+  init_group_gen ai_contracts {| cg_operation := "op"; cg_transactions := [ai_entry "a" 15; ai_entry "b" 15] |} =
+  Raise E_same_abs.
+Proof. exact abs_alias_witness. Qed.
+
+Theorem C13_group_cfg_ok_ignores_index_range :
+  forall (cs : list (string * tcontract)) (es : list GroupConfigTransaction) (f : Z -> Z),
+  (forall x y : Z, f x = f y -> x = y) -> group_cfg_ok cs (map (renumber f) es) = group_cfg_ok cs es.
+Proof. exact group_cfg_ok_ignores_index_range. Qed.
+
+Print Assumptions C13_group_reading_returns_iff_cfg_ok.
+Print Assumptions C13_group_cfg_ok_meaning.
+Print Assumptions C13_group_reading_exception_is_first_error.
+Print Assumptions C13_fill_group_relative_indexes_cannot_raise.
+Print Assumptions C13_group_reading_raises_first_offender.
+Print Assumptions C13_group_reading_raises_nothing_else.
+Print Assumptions C13_group_reading_raises_unknown_type.
+Print Assumptions C13_group_reading_raises_unknown_contract.
+Print Assumptions C13_group_reading_raises_unknown_function.
+Print Assumptions C13_group_reading_raises_application_is_logic_sig.
+Print Assumptions C13_group_reading_raises_logic_sig_is_application.
+Print Assumptions C13_group_reading_raises_repeated_id.
+Print Assumptions C13_group_reading_raises_foreign_relative_id.
+Print Assumptions C13_group_reading_raises_same_absolute_index.
+Print Assumptions C13_from_yaml_function_call_total.
+Print Assumptions C13_from_yaml_transaction_total.
+Print Assumptions C13_from_yaml_group_total.
+Print Assumptions C13_from_yaml_transaction_exceptions.
+Print Assumptions C13_from_yaml_transaction_missing_field_iff.
+Print Assumptions C13_from_yaml_transaction_unknown_type_iff.
+Print Assumptions C13_from_yaml_transaction_fields.
+Print Assumptions C13_from_yaml_entry_with_all_fields.
+Print Assumptions C13_configuration_group_returns_iff.
+Print Assumptions C13_configuration_group_never_keyerror.
+Print Assumptions C13_absolute_index_validated_in_block_reads_slot.
+Print Assumptions C13_absolute_index_own_contract_reads_slot.
+Print Assumptions C13_absolute_index_other_contracts_read_slot.
+Print Assumptions C13_absolute_index_minus_one_is_fifteen.
+Print Assumptions C13_absolute_index_out_of_range_raises.
+Print Assumptions C13_absolute_index_kept_by_init.
+Print Assumptions C13_absolute_index_view_through_to_N_refuted.
+Print Assumptions C13_absolute_index_negative_verdict.
+Print Assumptions C13_absolute_index_out_of_range_verdict.
+Print Assumptions C13_absolute_index_alias_witness.
+Print Assumptions C13_group_cfg_ok_ignores_index_range.
+
+(* regenerated reading + regenerated verdict = the model verdict on the RAW records of the configuration (relative
+   indexes as listed): rel_dict is idempotent and the verdict reads g_rel only through rel_dict -- Lemmas/CfgRawVerdict.v *)
+From Tealer Require Import CfgRawVerdict.
+Theorem C13_rel_dict_idempotent : forall t : gtxn, rel_dict (normalize t) = rel_dict t.
+Proof. exact rel_dict_idempotent. Qed.
+
+Theorem C13_regenerated_init_then_verdict_equals_model_on_raw_records :
+  forall (funcs : list (func * fn_result)) (checks : bctx -> bool) (dtype : string) (vtypes : option (list string))
+         (cs : list (string * tcontract)) (grp : GroupConfigGroup) (heap : list tobj) (g : gobj),
+  init_group_gen cs grp = Ok (heap, g) ->
+  dtype = "STATELESS" \/ dtype = "STATEFULL" ->
+  group_ok funcs (map (cfg_gtxn cs) (cg_transactions grp)) ->
+  group_verdict_gen funcs checks dtype vtypes (view_group heap g) =
+  Some (group_verdict funcs checks dtype vtypes (map (raw_gtxn cs) (cg_transactions grp))).
+Proof. exact init_then_verdict_raw_eq. Qed.
+
+Print Assumptions C13_rel_dict_idempotent.
+Print Assumptions C13_regenerated_init_then_verdict_equals_model_on_raw_records.
+
+(* the readers of the contracts part and of the whole configuration, for every parsed YAML map -- Lemmas/ConfigFromYamlLemmas.v *)
+From Tealer Require Import GroupConfigGenLemmas ConfigFromYamlLemmas.
+Theorem C13_from_yaml_contract_total :
+  forall m : list (string * yv), GroupConfigContract_from_yaml_gen m = contract_spec m.
+Proof. exact contract_from_yaml_spec. Qed.
+
+Theorem C13_from_yaml_config_total :
+  forall m : list (string * yv),
+  GroupConfig_from_yaml_gen m =
+  match yfind "name" m, yfind "contracts" m, yfind "groups" m with
+  | Some name, Some cs, Some gs =>
+    rbind (as_list cs) (fun l1 => rbind (mapR (fun v => rbind (as_map v) contract_spec) l1) (fun contracts =>
+    rbind (as_list gs) (fun l2 => rbind (mapR group_elem l2) (fun groups =>
+    rbind (as_str name) (fun n => Ok (mkGroupConfig n contracts groups))))))
+  | _, _, _ => Raise E_cfg_absent
+  end.
+Proof. exact config_from_yaml_total. Qed.
+
+(* neither KeyError of init_tealer_from_config (transaction type table, contract type table) can happen on a
+   configuration that from_yaml has read *)
+Theorem C13_configuration_read_has_known_types :
+  forall (m : list (string * yv)) (cfg : GroupConfig),
+  GroupConfig_from_yaml_gen m = Ok cfg ->
+  (forall grp e, In grp (gc_groups cfg) -> In e (cg_transactions grp) -> sdict_mem (ct_txn_type e) USER_CONFIG_TRANSACTION_TYPES = true) /\
+  (forall c, In c (gc_contracts cfg) -> s_in_list (cc_contract_type c) GROUP_CONFIG_CONTRACT_TYPES = true).
+Proof. exact config_known_types. Qed.
+
+Print Assumptions C13_from_yaml_contract_total.
+Print Assumptions C13_from_yaml_config_total.
+Print Assumptions C13_configuration_read_has_known_types.
